@@ -79,6 +79,24 @@ NA = {
  "C15": "Convergence of a two-node message exchange under every schedule and chain pair, and a numerical bound on the fork-id ancestor estimate: protocol state space and arithmetic over chain contents, nothing decidable from code shape.",
  "C16": "Invariants of the fetch scheduler are over operation histories of a private state machine (quota arithmetic, ordering, eventual request); every structural proxy would be a frozen fragment of today's loop that an equivalent refactor would trip.",
 }
+ROUND3 = {
+ "C01": " Round 3: also re-runs, under this id, the rules of the mechanisms the statement rests on (C03 lockstep/full-before-apply/order/ledger-owner: inputs are checked against the UTXO set of that same chain only if wind/unwind keep it in step; C13.derive: every ATR-typed transaction is matched against the derived commitment). The in-block double-spend rules locate the scan by the key type of its table, in Block::validate or any closure inside it.",
+ "C02": " Round 3: C02.payout-exact - Block::validate accepts a block only with exactly the fee transaction its consensus values call for (compared when expected, compared when carried, count bounded); this rule found a genuine validator hole on the pinned tree (omitted payout / minted Fee transaction), repaired by a fix commit. Cross-lists C01.dup-scan/scan-exemptions and C13.handled.",
+ "C03": " Round 3: the lockstep rule has a fifth view - Block.in_longest_chain is written with the step's direction in every wind/unwind step (directly or through a callee that stores a bool parameter into it).",
+ "C04": " Round 3: C04.index-delete-neutral - on the deletion path every value stored into a ring slot's longest-chain marker derives from the old marker (or is the None default); found and repaired a genuine defect (marker defaulted to Some(0)). C04.recovery-rewinds-old-chain - some wind step can apply the old chain's blocks again after a failed wind (reachability, not termination): reports the livelock the property text records, kept as a known finding with an executed witness.",
+ "C05": " Round 3: the density verdict is checked at every caller (a tip that fails the 2-of-6 rule must be discarded, not kept as a side block); burn-fee totals may be iterator sums.",
+ "C07": " Round 3: C07.fee-tx-presence (the producer appends the fee transaction exactly when cv.fee_transaction is Some); cross-lists C13.compare/derive (incl. the counting unit of total_rebroadcast_slips) and C14.cached-work.",
+ "C09": " Round 3: C09.inline-variants - Message variants whose payload is built inline in the match arm are read back at the offsets they are written.",
+ "C10": " Round 3: the bounds engine is interprocedural - the caller's facts travel into helpers (parameters bound to argument values/lengths, struct-field lengths included), helpers returning bool/Result/Option export the facts that hold on their true/Ok/Some exits, and `let ok = a && b` flags carry the facts of their definition.",
+ "C11": " Round 3: C11.peer-indexing - every index/slice into a field of a peer-decoded structure (Transaction, Slip, Hop, Block, GhostChainSync, handshake messages) in the 391 handler-reachable bodies is covered by a dominating length fact (95 sites, 7 reasoned exceptions; helpers are judged at their call sites); cross-lists C20.inversion/reacquire for handler-reachable bodies.",
+ "C13": " Round 3: Block::generate counts ATR-typed outputs for total_rebroadcast_slips (the unit generate_consensus_values counts in).",
+ "C14": " Round 3: release/reserve done by a helper that is handed the pool (`self.release_reserved_inputs(&tx)`) is recognised; an unreleased removal in a helper is judged at the helper's call sites.",
+ "C17": " Round 3: C17.index-paired - a peer record leaves index_to_peers only together with its address_to_peers entry and is inserted only at a fresh index or behind a lookup; who-may tables are closed under private helpers.",
+ "C18": " Round 3: C18.ordinal - the ordinal handed to Transaction::generate is a counter that a placeholder advances by txs_replacements.",
+ "C19": " Round 3: C19.reserve-then-fail - no caller returns an error after Wallet::generate_slips reserved slips.",
+}
+for _k, _v in ROUND3.items():
+    CHECKS[_k]["text"] += _v
 PENDING = "check not built yet in this round (planned in DESIGN.md §4); not claimed until it lands"
 
 def main():
